@@ -8,6 +8,9 @@
 static unsigned long long n_eval, n_nontriv, g_states, g_trans, n_seq;
 static int thorough;
 static size_t PG;
+static int mlock_fails;         /* environment answer of the mlock() interposer below; part of every failure key */
+static const char *envkey(const char *key) { static char b[400]; if (!mlock_fails) return key; snprintf(b, sizeof b, "mlock-fails(%d)/%s", mlock_fails, key); return b; }
+#define vf_fail(key, ...) (vf_fail)(envkey(key), __VA_ARGS__)
 
 /* ---------------- link-time interposers (logging, pass-through; mmap above 1 GiB refused so nothing huge is ever mapped) ---------------- */
 enum { OP_MMAP, OP_MUNMAP, OP_MPROTECT, OP_MLOCK, OP_MUNLOCK, OP_MADVISE };
@@ -26,7 +29,14 @@ int __wrap_munmap(void *a, size_t l) { int r = __real_munmap(a, l); logit(OP_MUN
 int __real_mprotect(void *, size_t, int);
 int __wrap_mprotect(void *a, size_t l, int p) { int r = __real_mprotect(a, l, p); logit(OP_MPROTECT, (uintptr_t) a, l, p, r); return r; }
 int __real_mlock(const void *, size_t);
-int __wrap_mlock(const void *a, size_t l) { int r = __real_mlock(a, l); logit(OP_MLOCK, (uintptr_t) a, l, 0, r); return r; }
+/* environment answer: mlock_fails = 1 makes every mlock() fail with ENOMEM (RLIMIT_MEMLOCK exhausted, no CAP_IPC_LOCK), 2 with EPERM, 3 with EAGAIN -
+ * the implementation documents that it carries on without locking; every guarantee of the property must hold unchanged */
+int __wrap_mlock(const void *a, size_t l)
+{
+    int r;
+    if (mlock_fails) { errno = mlock_fails == 1 ? ENOMEM : mlock_fails == 2 ? EPERM : EAGAIN; r = -1; } else r = __real_mlock(a, l);
+    logit(OP_MLOCK, (uintptr_t) a, l, 0, r); return r;
+}
 int __real_munlock(const void *, size_t);
 int __wrap_munlock(const void *a, size_t l) { int r = __real_munlock(a, l); logit(OP_MUNLOCK, (uintptr_t) a, l, 0, r); return r; }
 int __real_madvise(void *, size_t, int);
@@ -263,6 +273,13 @@ static void layout_item(long i)
     layout_size((long) n);
 }
 
+/* sizes whose end lies within a canary width of a page boundary, and the smallest ones */
+static void layout_item_edges(long i)
+{
+    size_t n = (size_t) i, m = n % PG;
+    if (n <= 40 || m <= 2 || m >= PG - 18) layout_size((long) n);
+}
+
 /* isolated large sizes (every byte of the region must carry the fill, the layout rules are the same): an allocator may treat sizes above a
  * threshold differently */
 static const size_t BIGSZ[] = { 65536, 65537, 1048576, 2097151, 2097152, 2097153, 3145735, 4194304 + 5, 16777216 + 9, 67108864 + 1 };
@@ -308,6 +325,13 @@ int main(void)
     vf_parallel(12, 0, 12, protect_size, fin);
     vf_parallel(16, 0, 16, canary_structured, fin);
     histories(); fin();
+    /* the same layout sweep (sizes around every page boundary), protection state machine, canary and history checks with mlock() failing */
+    for (mlock_fails = 1; mlock_fails <= 3; mlock_fails++) {
+        if (mlock_fails == 1 || thorough) vf_parallel(16, 0, (long) ((thorough ? 8 : 3) * PG + 2), layout_item_edges, fin);
+        vf_parallel(12, 0, 12, protect_size, fin);
+        if (mlock_fails == 1) { vf_parallel(16, 0, 16, canary_structured, fin); histories(); fin(); }
+    }
+    mlock_fails = 0;
     vf_parallel(10, 0, 10, layout_big, fin);
     vf_parallel(16, 0, 40, allocarray_big, fin);
     limits(); fin();
